@@ -28,7 +28,7 @@ RULE = (
     "give A's result. (b) explicit-state BFS over histories of %d estimator specs "
     "with the event alphabet {fit(D_a), fit(D_b), fit(D_c), fit(D_d = D_a re-located by parts in 1e7, other readings), predict, filter(D_a), grid, score(last dataset), scatter, profile, clone, set_params(**get_params()), switch to an "
     "alternative / back to the base parameter set through set_params, caller overwrites the arrays it passed earlier}, depth 3 (thorough 4), every history replayed on a fresh estimator (histories merged on (abstract state, concrete fingerprint) only for SplineCV), invariant: the "
-    "fingerprint equals that of the shortest history with the same abstract state; (b2) histories of depth 3 (thorough 5) over ONE instance of each of 9 parameter-only objects (BlockReduce x3, BlockMean x2, BlockKFold x2, BlockShuffleSplit, CheckerBoard) with the alphabet {call on D_a / D_b / D_c, call again with the same array objects reversed in place, switch a parameter and back, clone, params round trip, caller overwrites everything passed and received}: every call equals that of a fresh instance with the current parameters. (c) %d single inconsistencies that must raise. "
+    "fingerprint equals that of the shortest history with the same abstract state; (b2) histories of depth 3 (thorough 5) over ONE instance of each of 9 parameter-only objects (BlockReduce x3, BlockMean x2, BlockKFold x2, BlockShuffleSplit, CheckerBoard) with the alphabet {call on D_a / D_b / D_c, call again with the same array objects reversed in place, two interleaved split loops on one cross-validator, switch a parameter and back, clone, params round trip, caller overwrites everything passed and received}: every call equals that of a fresh instance with the current parameters. (c) %d single inconsistencies that must raise. "
     "Non-trivial: every case."
     " Added axes: read-only / view / Fortran variants compared with round-off tolerance, scribble on outputs then repeat, same array objects with new contents, interference sequences A, B, A over 26 function families, parameter switch events with stale states, invalid table of about 150 inconsistent calls (shapes, component counts, both / neither of shape and spacing, inverted and out-of-range regions incl. UTM-scale and geographic ones)."
 )
@@ -585,7 +585,7 @@ def _obj_specs(vd):
 
 
 OBJ_SPECS = sorted(_obj_specs(_Dummy()))
-OBJ_EVENTS = ["call_a", "call_b", "call_c", "again", "alt", "base", "clone", "params", "overwrite"]
+OBJ_EVENTS = ["call_a", "call_b", "call_c", "again", "interleave", "alt", "base", "clone", "params", "overwrite"]
 
 
 def _obj_call(obj, how, which, owned=None, keep=None, arrays=None):
@@ -893,7 +893,44 @@ def run(case, rec):
             obj, pset, owned, got, want, keep = mk(), "base", [], None, None, []
             for ev in hist:
                 got = want = None
-                if ev == "again":
+                if ev == "interleave":
+                    # two splitting loops of the SAME cross-validator alive at once (nested cross-validation, zip of two splits): the folds of
+                    # each data set are those of a fresh splitter (round 9, seed C11-17: point labels kept on the instance between yields)
+                    if how != "split":
+                        continue
+                    def two(o_):
+                        ea_, na_ = _pts("a")[:2]
+                        eb_, nb_ = _pts("b")[:2]
+                        g1, g2 = o_.split(np.column_stack([ea_, na_])), o_.split(np.column_stack([eb_, nb_]))
+                        l1, l2, live = [], [], [True, True]
+                        while any(live):
+                            for k_, (g_, l_) in enumerate(((g1, l1), (g2, l2))):
+                                if live[k_]:
+                                    try:
+                                        tr_, te_ = next(g_)
+                                        l_.append((tr_.copy(), te_.copy()))
+                                    except StopIteration:
+                                        live[k_] = False
+                        return l1, l2
+                    def sep(mk_):
+                        ea_, na_ = _pts("a")[:2]
+                        eb_, nb_ = _pts("b")[:2]
+                        a_, b_ = mk_(), mk_()
+                        return ([(x.copy(), y.copy()) for x, y in a_.split(np.column_stack([ea_, na_]))], [(x.copy(), y.copy()) for x, y in b_.split(np.column_stack([eb_, nb_]))])
+                    def mkcur():
+                        f_ = mk()
+                        setp(f_, palt if pset == "alt" else pbase)
+                        return f_
+                    try:
+                        got = _canon(two(obj))
+                    except Exception as exc:  # noqa: BLE001
+                        got = "raised " + type(exc).__name__
+                    try:
+                        want = _canon(sep(mkcur))
+                    except Exception as exc:  # noqa: BLE001
+                        want = "raised " + type(exc).__name__
+                    rec.trans(2)
+                elif ev == "again":
                     # the caller reverses, IN PLACE, the arrays of its last call and calls again with the very same array objects (round 8,
                     # seed C11-15: block labels memoised on the identity of the coordinate array)
                     if not keep:
@@ -952,7 +989,7 @@ def run(case, rec):
                 for ev in OBJ_EVENTS:
                     h2 = hist + [ev]
                     nxt.append(h2)
-                    if not (ev.startswith("call_") or ev == "again"):
+                    if not (ev.startswith("call_") or ev in ("again", "interleave")):
                         continue  # only histories that end in a call observe anything new (prefixes were checked at their own depth)
                     got, want, pset = replay(h2)
                     nhist += 1
